@@ -149,6 +149,27 @@ def pawnOnEdge (b : Vector (Option Piece) 64) : Bool :=
     (match b[c]? with | some (some pc) => pc.pieceType = .pawn | _ => false)
     || (match b[56 + c]? with | some (some pc) => pc.pieceType = .pawn | _ => false))
 
+/-- what stands on `(row, col)` of a scanned board -/
+def boardAt (b : Vector (Option Piece) 64) (row col : Int) : Option Piece :=
+  b.toArray.getD (row * 8 + col).toNat none
+
+/-- every castling right of the state byte has its king and rook on their home squares -/
+def rightsMatchBoard (b : Vector (Option Piece) 64) (st : GState) : Bool :=
+  (!st.wk || (boardAt b 0 4 = some ⟨.king, .white⟩ && boardAt b 0 7 = some ⟨.rook, .white⟩))
+  && (!st.wq || (boardAt b 0 4 = some ⟨.king, .white⟩ && boardAt b 0 0 = some ⟨.rook, .white⟩))
+  && (!st.bk || (boardAt b 7 4 = some ⟨.king, .black⟩ && boardAt b 7 7 = some ⟨.rook, .black⟩))
+  && (!st.bq || (boardAt b 7 4 = some ⟨.king, .black⟩ && boardAt b 7 0 = some ⟨.rook, .black⟩))
+
+/-- an en-passant file is backed by the enemy pawn that has just made its double step, with the
+two squares behind it empty -/
+def epMatchesBoard (b : Vector (Option Piece) 64) (st : GState) (player : Player) : Bool :=
+  let ep := st.enPassant
+  if ep < 8 then
+    match player with
+    | .white => boardAt b 4 ep = some ⟨.pawn, .black⟩ && (boardAt b 5 ep).isNone && (boardAt b 6 ep).isNone
+    | .black => boardAt b 3 ep = some ⟨.pawn, .white⟩ && (boardAt b 2 ep).isNone && (boardAt b 1 ep).isNone
+  else true
+
 /-- `Game::new` -/
 def Game.ofFen (fen : List Char) : FenResult :=
   match splitWs fen with
@@ -193,6 +214,10 @@ def Game.ofFen (fen : List Char) : FenResult :=
                     if !(materialOkSide sc.board .white && materialOkSide sc.board .black)
                         || pawnOnEdge sc.board then
                       .refused "Impossible material"
+                    else if !rightsMatchBoard sc.board st then
+                      .refused "Castling rights do not match the board"
+                    else if !epMatchesBoard sc.board st player then
+                      .refused "En passant square does not match the board"
                     else
                     let g : Game :=
                       { score := sc.score, player := player, moveStack := [], endgame := false,
